@@ -2,6 +2,8 @@
 import glob, json, os
 V = os.path.dirname(os.path.dirname(os.path.abspath(__file__)))
 HIST = {
+    "C13c-m1": "undecided for the prover (the vectorised body leaves the subset) and missed by the bounded check at first (broken candidate paths only moved through walls or out of the grid); bounded C13 now also jumps between non-adjacent cells and repeats cells",
+    "C05c-m1": "undecided for the prover and missed by the bounded check at first (the explicit minimal formats were read back with their own loaders, never through the dispatching MazeDataset.load); bounded C05 now sends both minimal formats through load() as well",
     "C15b-m1": "missed at first (no multi-step history involving the sampler; the quick tier only counts the enumeration): bounded C15 now uses the test sampler and looks at the enumerated set again - on a stubbed 300-element set in the quick tier, on the real 5.9-million set in the thorough tier",
     "C15b-m2": "missed by the quick tier at first (the 7 offenders are one-element neighbours of a legacy image and were not in the 20,000-configuration sample; the thorough tier evaluates is_legacy_equivalent on every tokenizer): the quick tier now adds the one-element neighbours of the legacy images",
     "C20b-m1": "missed at first (the bounded solved mazes stored BFS shortest paths, which the solver reproduces); bounded C20 now stores randomised simple paths on cyclic mazes - the plot must draw the stored solution",
